@@ -200,7 +200,16 @@ pub fn oracle(c: &Corpus, _seed: u64, tier: &str) -> Vec<Report> {
                 Token::EOF => "EOF".into(),
                 _ => continue, // followed by something that is neither a closer, `;`, EOF nor a keyword
             };
-            let key = (var.clone(), follower_kind.clone(), format!("{dn}/{how}"), 0usize);
+            // context of the list: token before its opening bracket and the last clause keyword before it
+            let mut depth = 0i32;
+            let mut open_at = None;
+            for (qi, q) in toks[..e.min(toks.len())].iter().enumerate().rev() {
+                match q.token { Token::RParen | Token::RBracket | Token::RBrace => depth += 1, Token::LParen | Token::LBracket | Token::LBrace => { if depth == 0 { open_at = Some(qi); break; } depth -= 1; } _ => {} }
+            }
+            let kwname = |t: &Token| match t { Token::Word(w) if w.keyword != Keyword::NoKeyword => format!("{:?}", w.keyword), Token::Word(_) => "ident".to_string(), other => crate::canon::tok_variant(other) };
+            let before_open = open_at.and_then(|o| toks[..o].iter().rev().find(|x| !is_ws(&x.token))).map(|x| kwname(&x.token)).unwrap_or_default();
+            let clause = toks[..open_at.unwrap_or(e.min(toks.len()))].iter().rev().find_map(|x| match &x.token { Token::Word(w) if RESERVED_FOR_COLUMN_ALIAS.contains(&w.keyword) || matches!(w.keyword, Keyword::SELECT | Keyword::VALUES | Keyword::SET | Keyword::INTO | Keyword::TABLE | Keyword::JOIN | Keyword::BY) => Some(format!("{:?}", w.keyword)), _ => None }).unwrap_or_default();
+            let key = (var.clone(), format!("{follower_kind}<{before_open}<{clause}"), format!("{dn}/{how}"), 0usize);
             if tier != "thorough" && !seen_keys.insert(key) { continue; }
             let pos = toks.get(j).and_then(|x| li.offset(x.location.line, x.location.column)).unwrap_or(chars.len());
             let mut t2: String = chars[..pos].iter().collect();
